@@ -111,6 +111,15 @@ func init() {
 			Monitors: []Monitor{monitorPair("topk", topkOpName)}, OpName: topkOpName, NoModel: true,
 			Rule: "the same history on both Top-K variants, Values() compared up to ties at the smallest reported count", Quick: 60, Thorough: 1200},
 	}
+	machineByID[11] = func() Machine { return &sizingMachine{} }
+	registry["C15"] = []Suite{
+		{Name: "formulas", NewMachine: func() Machine { return &sizingMachine{} }, Gen: genC15formula,
+			Monitors: []Monitor{monitorSizing}, OpName: sizingOpName,
+			Rule: "sizing formulas on random (n,p), (size,b,err), (eps,delta) against 200-bit reference values; probe / row / rank formulas against the Coq definitions on random elements", Quick: 25, Thorough: 600},
+		{Name: "rates", NewMachine: func() Machine { return &sizingMachine{} }, Gen: genC15stat,
+			Monitors: []Monitor{monitorSizing}, OpName: sizingOpName, NoModel: true,
+			Rule: "statistical acceptance test (not a proof): empirical false-positive / over-estimate frequencies against 1.5x budget + 5 sigma", Quick: 6, Thorough: 150},
+	}
 	registry["C19"] = []Suite{
 		{Name: "shared-db", NewMachine: newMultiMachine, Gen: genC19,
 			OpName: func(op Tok) string {
